@@ -989,7 +989,10 @@ impl IsoChild {
             .arg(sub)
             .stdin(Stdio::piped())
             .stdout(Stdio::piped())
-            .stderr(Stdio::null())
+            .stderr(match std::env::var("SV_CHILD_STDERR") {
+                Ok(p) => std::fs::OpenOptions::new().create(true).append(true).open(p).map(Stdio::from).unwrap_or_else(|_| Stdio::null()),
+                Err(_) => Stdio::null(),
+            })
             .spawn()?;
         let stdin = child.stdin.take().unwrap();
         let stdout = child.stdout.take().unwrap();
@@ -1065,9 +1068,19 @@ impl IsoPool {
         }
         match child.lines.recv_timeout(self.timeout) {
             Ok(l) => {
-                self.idle.lock().unwrap().push(child);
-                let v: Value = serde_json::from_str(&l)
-                    .map_err(|e| Fail::new("harness-protocol", format!("bad child answer {:?}: {}", l, e)))?;
+                let v: Value = match serde_json::from_str(&l) {
+                    Ok(v) => v,
+                    Err(e) => {
+                        child.kill();
+                        return Err(Fail::new("harness-protocol", format!("bad child answer {:?}: {}", l, e)));
+                    }
+                };
+                if v.get("exiting").is_some() {
+                    // the child's watchdog answered and the child is going away
+                    child.kill();
+                } else {
+                    self.idle.lock().unwrap().push(child);
+                }
                 if let Some(ok) = v.get("ok") {
                     let labels = ok
                         .get("labels")
@@ -1129,7 +1142,7 @@ pub fn child_loop(sub: &str, replay: fn(&str, Value) -> Option<CaseResult>) -> i
         let started = *CASE_STARTED.lock().unwrap();
         if let (Some(t0), Some((loc, msg))) = (started, peek_foreign_panic()) {
             if t0.elapsed() > Duration::from_secs(3) {
-                let ans = json!({"fail": {"signature": format!("panic@thread:{}", loc), "msg": format!("a thread of the code under test panicked at {} ({}) and the operation never returned", loc, msg)}});
+                let ans = json!({"exiting": true, "fail": {"signature": format!("panic@thread:{}", loc), "msg": format!("a thread of the code under test panicked at {} ({}) and the operation did not return within 3 s afterwards", loc, msg)}});
                 let out = std::io::stdout();
                 let mut o = out.lock();
                 let _ = writeln!(o, "{}", ans);
